@@ -15,9 +15,9 @@ fn echo() -> tower::util::BoxCloneService<Request<Bytes>, Response<Bytes>, Infal
     }))
 }
 
-fn net(seed: u64) -> Network {
+fn net(seed: u64, idle_wait_ms: u64) -> Network {
     let mut cfg = anemo::Config::default();
-    cfg.shutdown_idle_timeout_ms = Some(200);
+    cfg.shutdown_idle_timeout_ms = Some(idle_wait_ms);
     Network::bind("127.0.0.1:0")
         .server_name("teardown")
         .private_key(key_from_seed(seed))
@@ -41,8 +41,11 @@ pub fn run() {
             let variant2 = variant.clone();
             let spin = (seed >> 33) % 2000;
             let (a, b, addr) = rt.block_on(async move {
-                let a = net(2 * i as u64 + 1);
-                let b = net(2 * i as u64 + 2);
+                // the idle wait of shutdown() is bounded: with a short bound it ends while connections are still
+                // draining, with a long one the endpoint goes idle first; the address must be free either way
+                let idle_wait = if variant2 == "rebind" { [0u64, 1, 5, 20, 200][(seed >> 20) as usize % 5] } else { 200 };
+                let a = net(2 * i as u64 + 1, idle_wait);
+                let b = net(2 * i as u64 + 2, 200);
                 let addr = a.local_addr();
                 if variant2 != "idle" {
                     let _ = a.connect(b.local_addr()).await;
